@@ -345,6 +345,44 @@ func TestVerifC35(t *testing.T) {
 	}
 	n := r.N(3000, 80000)
 	crashes := 0
+	// systematic first: every RTSP method x every URL shape as an otherwise well-formed request (so that it reaches the
+	// handler of the method), each on its own connection
+	{
+		methods := []string{"OPTIONS", "DESCRIBE", "ANNOUNCE", "SETUP", "PLAY", "RECORD", "PAUSE", "TEARDOWN", "GET_PARAMETER", "SET_PARAMETER"}
+		shapes := []string{"", "/", "/p", "//", "/p/", "/p/trackID=0", "?x=1", "/?x=1", "*", "/%2e%2e/x", "/p#frag"}
+		sdp := "v=0\r\no=- 0 0 IN IP4 127.0.0.1\r\ns=x\r\nt=0 0\r\nm=video 0 RTP/AVP 96\r\na=rtpmap:96 H264/90000\r\na=control:trackID=0\r\n"
+		for _, m := range methods {
+			for _, sh := range shapes {
+				u := fmt.Sprintf("rtsp://127.0.0.1:%d%s", ports["rtsp"], sh)
+				if sh == "*" {
+					u = "*"
+				}
+				req := fmt.Sprintf("%s %s RTSP/1.0\r\nCSeq: 1\r\n", m, u)
+				switch m {
+				case "ANNOUNCE":
+					req += fmt.Sprintf("Content-Type: application/sdp\r\nContent-Length: %d\r\n\r\n%s", len(sdp), sdp)
+				case "SETUP":
+					req += "Transport: RTP/AVP/TCP;unicast;interleaved=0-1\r\n\r\n"
+				default:
+					req += "\r\n"
+				}
+				c, err := net.DialTimeout("tcp", fmt.Sprintf("127.0.0.1:%d", ports["rtsp"]), 2*time.Second)
+				if err == nil {
+					c.SetDeadline(time.Now().Add(300 * time.Millisecond)) //nolint:errcheck
+					c.Write([]byte(req))                                  //nolint:errcheck
+					io.CopyN(io.Discard, c, 4096)                         //nolint:errcheck
+					c.Close()
+				}
+				r.Eval("rtsp-systematic|" + m + "|" + sh)
+				if !child.alive() {
+					msg, site := child.crashInfo()
+					crashes++
+					r.Violation("crash:"+site, fmt.Sprintf("the server process terminated (%s, in %s) after the unauthenticated request %q", msg, site, req), map[string]any{"request": req, "stderr": child.errLog})
+					child = c35Start(t, dir, cf, ports["rtsp"])
+				}
+			}
+		}
+	}
 	// one sender per target, all running at once (the generators share one PRNG: serialized by genMu)
 	var genMu sync.Mutex
 	whipHC := &http.Client{Timeout: 5 * time.Second}
@@ -416,6 +454,6 @@ func TestVerifC35(t *testing.T) {
 	for _, tg := range targets {
 		r.Sample(map[string]any{"listener": tg.name, "transport": tg.proto, "port": tg.port})
 	}
-	r.Finish("the real server (core.New) in a child process with every listener enabled (RTSP TCP + UDP RTP / RTCP, RTMP, SRT, WebRTC HTTP + UDP, HLS, MoQ HTTP + QUIC, Control API, playback, metrics, pprof) and default authentication; unauthenticated inputs round-robin over 16 targets: generated RTSP request sequences (hostile methods, URLs, CSeq, Content-Length, Transport, Session, Authorization, Range; SDP bodies; interleaved frames), RTMP handshakes followed by chunks with hostile lengths / types / AMF fragments, HTTP requests per endpoint family (hostile paths, queries, headers, JSON / SDP / ICE bodies, wrong Content-Length), mutated HTTP/2 prefaces, random bytes, RTP / RTCP datagrams, SRT handshakes with hostile fields, STUN messages with hostile attributes, QUIC initial packets; plus a stateful actor that opens WHIP / WHEP sessions anonymously with a real offer (pion) and sends hostile trickle-ICE PATCH / DELETE / POST requests to the session URL. Oracle: the process is alive after every batch of 16 inputs and at the end; a crash is reported with the panic site from its stderr. non-trivial = distinct (listener, input)",
+	r.Finish("the real server (core.New) in a child process with every listener enabled (RTSP TCP + UDP RTP / RTCP, RTMP, SRT, WebRTC HTTP + UDP, HLS, MoQ HTTP + QUIC, Control API, playback, metrics, pprof) and default authentication; first every RTSP method x 11 URL shapes as otherwise well-formed requests, then unauthenticated inputs round-robin over 16 targets: generated RTSP request sequences (hostile methods, URLs, CSeq, Content-Length, Transport, Session, Authorization, Range; SDP bodies; interleaved frames), RTMP handshakes followed by chunks with hostile lengths / types / AMF fragments, HTTP requests per endpoint family (hostile paths, queries, headers, JSON / SDP / ICE bodies, wrong Content-Length), mutated HTTP/2 prefaces, random bytes, RTP / RTCP datagrams, SRT handshakes with hostile fields, STUN messages with hostile attributes, QUIC initial packets; plus a stateful actor that opens WHIP / WHEP sessions anonymously with a real offer (pion) and sends hostile trickle-ICE PATCH / DELETE / POST requests to the session URL. Oracle: the process is alive after every batch of 16 inputs and at the end; a crash is reported with the panic site from its stderr. non-trivial = distinct (listener, input)",
 		"TLS listeners other than MoQ's are not enabled (their TCP payload reaches the same handlers after the TLS layer); inputs are stateless sequences, not long sessions")
 }
